@@ -170,7 +170,8 @@ func gate(r *c.Rng, auth *c.FakeAuth, dir string, g gateCase) c.Case {
 	if len(g.Groups) > 0 {
 		opts = append(opts, "      allowed_groups: "+yamlList(g.Groups))
 	}
-	yaml := "- service: svc\n  default:\n    from: app.example.test\n    to: " + backend.HostPort() + "\n    options:\n" + strings.Join(opts, "\n") + "\n"
+	yaml := "- service: decoy\n  default:\n    from: decoy.example.test\n    to: " + backend.HostPort() + "\n    options:\n      allowed_email_domains: [\"*\"]\n      allowed_groups: [\"*\"]\n" +
+		"- service: svc\n  default:\n    from: app.example.test\n    to: " + backend.HostPort() + "\n    options:\n" + strings.Join(opts, "\n") + "\n"
 	w, err := c.BuildProxy(c.ProxyOpts{YAML: yaml, Valid: time.Hour, Grace: 0, Dir: dir}, auth)
 	c.Must(err)
 	host := "app.example.test"
